@@ -25,6 +25,12 @@ impl<K: PartialEq, V> SmallMap<K, V> {
         self.0.push((k, v));
     }
 
+    /// Adds an entry without looking for an existing one with the same key;
+    /// for lists where a key may legitimately repeat.
+    pub fn push(&mut self, k: K, v: V) {
+        self.0.push((k, v));
+    }
+
     pub fn get<Q>(&self, q: &Q) -> Option<&V>
     where
         K: Borrow<Q>,
